@@ -76,6 +76,17 @@ type vfPrimTarget struct {
 	mk   func() any // pointer to a pre-populated target
 }
 
+type vfHidden struct{ shard, seq uint64 }
+type vfHalfHidden struct {
+	N   uint32
+	pad [4]uint64
+}
+type vfHolder struct {
+	Tag   string
+	Hid   []vfHidden
+	After uint16
+}
+
 var vfHPrimTargets = []vfPrimTarget{
 	{"[]uint64", func() any { v := []uint64{1, 2, 3}; return &v }},
 	{"[]string", func() any { v := []string{"a", "b"}; return &v }},
@@ -84,8 +95,23 @@ var vfHPrimTargets = []vfPrimTarget{
 	{"vfPrimA", func() any { v := vfPrimA{U8: 1, S: "keep", Raw: []byte{1}}; return &v }},
 	{"vfPrimB", func() any { v := vfPrimB{Strs: []string{"keep"}}; return &v }},
 	{"[]vfPrimA", func() any { v := []vfPrimA{{S: "keep"}}; return &v }},
+	// elements that take no bytes on the wire: the empty struct, a struct whose fields are all unexported (non-zero size in
+	// memory, zero bytes encoded), and one that mixes both kinds - the embedded count is then bounded by nothing but a cap
+	{"[]struct{}", func() any { v := []struct{}{{}, {}}; return &v }},
+	{"[]vfHidden", func() any { v := []vfHidden{{}, {}, {}}; return &v }},
+	{"[]vfHalfHidden", func() any { v := []vfHalfHidden{{N: 1}, {N: 2}}; return &v }},
+	{"vfHolder", func() any { v := vfHolder{Tag: "keep", Hid: []vfHidden{{}, {}}, After: 7}; return &v }},
 	{"string", func() any { v := "keep"; return &v }},
 	{"[]byte", func() any { v := []byte("keep"); return &v }},
+}
+
+// vfHChildTimeout: how long a batch (40 000 cases, normally a few seconds) may take before the case named by the journal
+// is declared a hang. Must stay well below the unit's own timeout so that the verdict is a violation, not a lost shard.
+func vfHChildTimeout() time.Duration {
+	if verifrt.Thorough() {
+		return 4 * time.Minute
+	}
+	return 40 * time.Second
 }
 
 func vfHBuildCases() []vfHCase {
@@ -449,7 +475,7 @@ func TestVerif_codechostile(t *testing.T) {
 	}
 	from := lo
 	batch := 40000
-	crashes := 0
+	crashes, hangs := 0, 0
 	for from < hi {
 		to := from + batch
 		if to > hi {
@@ -468,7 +494,7 @@ func TestVerif_codechostile(t *testing.T) {
 		timedOut := false
 		select {
 		case werr = <-done:
-		case <-time.After(8 * time.Minute):
+		case <-time.After(vfHChildTimeout()):
 			_ = cmd.Process.Kill()
 			werr = <-done
 			timedOut = true
@@ -509,6 +535,7 @@ func TestVerif_codechostile(t *testing.T) {
 		kind := "c13-crash"
 		if timedOut {
 			kind = "c13-hang"
+			hangs++
 		}
 		log := out.String()
 		first := ""
@@ -520,13 +547,27 @@ func TestVerif_codechostile(t *testing.T) {
 		}
 		key := c.Target
 		R.Violate(idx, kind, key, fmt.Sprintf("the process died while handling this case: %s | target=%s origin=%s input(%d bytes)=%s\n%s", first, c.Target, c.Origin, len(c.Data), hex.EncodeToString(c.Data[:minInt(len(c.Data), 96)]), verifrt.Short(log, 3000)), nil)
+		R.Flush() // the verdict must survive whatever this input does to the rest of the shard
 		// results of the cases before the killer are re-derived by re-running them; continue after the killer
 		if idx > from {
 			// best effort: run [from, idx) again to keep their verdicts
 			cmd2 := exec.Command(os.Args[0], "-test.run", "^TestVerif_codechostile$", "-test.timeout", "10m")
 			cmd2.Env = append(os.Environ(), "VERIF_C13_CHILD=1", "VERIF_C13_FROM="+strconv.Itoa(from), "VERIF_C13_TO="+strconv.Itoa(idx), "VERIF_C13_DIR="+dir)
 			_ = os.Remove(filepath.Join(dir, "result"))
-			if e := cmd2.Run(); e == nil {
+			done2 := make(chan error, 1)
+			_ = cmd2.Start()
+			go func() { done2 <- cmd2.Wait() }()
+			var e error
+			select {
+			case e = <-done2:
+			case <-time.After(vfHChildTimeout()):
+				_ = cmd2.Process.Kill()
+				e = <-done2
+				if e == nil {
+					e = fmt.Errorf("timeout")
+				}
+			}
+			if e == nil {
 				res = vfHResult{}
 				if b, e := os.ReadFile(filepath.Join(dir, "result")); e == nil {
 					_ = json.Unmarshal(b, &res)
@@ -535,6 +576,10 @@ func TestVerif_codechostile(t *testing.T) {
 			}
 		}
 		from = idx + 1
+		if hangs >= 2 {
+			R.Inconcl("two inputs made the decoder hang in this shard: remaining cases skipped")
+			break
+		}
 		if crashes > 25 {
 			R.Inconcl("more than 25 process deaths in this shard: remaining cases skipped")
 			break
